@@ -161,6 +161,12 @@ GreedyOpen(decl, greedy, argv) ==
       firstPos == IF FreeBefore = {} THEN n + 1 ELSE MinOf(FreeBefore)
   IN greedy /\ firstPos < firstDD /\ \E j \in (firstPos + 1)..n : IsMalformed(argv[j])
 
+(* The second public entry point, parse(const std::vector<user_input>&): the caller builds the user_input   *)
+(* objects, and building one from a malformed token already raises the user-input error -- wherever the    *)
+(* token stands, also after "--".  Otherwise the meaning is the same.                                       *)
+MeaningViaInputs(decl, allowed, greedy, env, argv) ==
+  IF \E j \in 1..Len(argv) : IsMalformed(argv[j]) THEN ErrorOutcome ELSE Meaning(decl, allowed, greedy, env, argv)
+
 (* The documented rejection conditions, as a predicate of the input alone (C04) *)
 Rejects(decl, allowed, greedy, env, argv) == Meaning(decl, allowed, greedy, env, argv).oc = "error"
 =============================================================================
